@@ -33,6 +33,8 @@ import Y0.Lemmas.TrsoNoErr
 import Y0.Lemmas.TrsoIdSim
 import Y0.Lemmas.TrsoAll
 import Y0.Props.C02
+import Y0.Props.C01
+import Y0.Lemmas.TrsoSoundNoSurr
 
 namespace Y0
 namespace Trso
@@ -411,15 +413,43 @@ theorem trso_no_surrogate_none_iff_id_partial {topo : MG Name → Except Err (Li
       obtain ⟨e', he'⟩ := hiff.1 ⟨e, hr⟩
       rw [hun] at he'; cases he'
 
--- OPEN: trso_no_surrogate_iff_id (denotation part)
---   ... and both estimands denote the same function in every `Scm` compatible with `G`:
---       den env σ' e σ = den env σ' e' σ   for the estimands e (TRSO) and e' (ID) of the theorem above.
---   The ID side is `id_sound` (Props/C01).  The TRSO side needs the denotation lemmas of the TrDsl operators
---   (`Sum.simplify` on a joint, `Product.safe`, `*`, `/`, `Fraction.simplify`, `canonicalize`; only `Sum.safe` is done:
---   `den_sumSafe`) - fraction cancellation is only sound where the cancelled factor is non-zero, i.e. under positivity -
---   and then the same invariant as `id_sound` ("the carried estimand denotes Q[V_cur]").  Checked on every run: the
---   exact-rational oracle evaluates every TRSO estimand against P*(y|do(x)), and the verdict is compared with the real
---   `identify_outcomes` on every no-surrogate case.
+/-- **With no declared surrogate experiment the TRSO estimand is sound** (denotation part of the clause, and the first
+sentence of the property for every run that uses no source experiment).  For every validated input over a well-formed
+acyclic graph of user variables (names below 100), with non-empty outcomes and source domains that declare no
+experiment, every estimand `identify_target_outcomes` returns denotes `P(Y | do(X))` (truncated factorisation,
+`Scm.doProb`) in EVERY positive semi-Markovian model `M` compatible with the graph (Y0/Spec/Scm.lean), at every value
+assignment — whatever the separation test.  The population tag "pi*" of its leaves reads the model (`M.env G`).
+Proof: the recursion invariant "the carried expression denotes the c-factor `Q[V_cur]`" (Lemmas/TrsoSem, TrsoSem34,
+TrsoSemRatio, assembled in TrsoSemAll) on top of the c-factor lemmas of Lemmas/QFactor, and the denotation lemmas of
+the DSL operators of Y0.Model.TrDsl including `canonicalize` and `Fraction.simplify` (Lemmas/TrsoDenOps, TrsoDenCanon;
+cancellation is sound because compatible models are positive). -/
+theorem trso_sound_no_surrogate (sep : SepTest) (G : MG Name) (hG : G.WF) (hA : G.Acyclic)
+    (hsmall : ∀ v ∈ G.nodes, v < 100) (Y X : List Name) (outcomes interventions : List (Pop × List Name))
+    (hv : validInput G Y X outcomes interventions = true) (hY : Y ≠ []) (hZ : ∀ p ∈ interventions, p.2 = [])
+    (e : Expr) (h : identifyTargetOutcomes sep G Y X outcomes interventions = .ok (some e))
+    (M : Scm) (hM : M.Compatible G) (σ' σ : Val) :
+    den (M.env G) σ' e σ = M.doProb G X Y σ :=
+  trso_sound_no_surrogate_core sep G hG hA hsmall Y X outcomes interventions hv hY hZ e h M hM σ' σ
+
+/-- **... and it is the function the ID estimand denotes**: with no declared experiment the estimands of TRSO and of ID
+(for any sound topological-order oracle) have the same value in every compatible model at every assignment (both are
+`P(Y | do(X))`: `trso_sound_no_surrogate`, `id_sound`).  Together with `trso_no_surrogate_iff_id_partial` this is the
+clause "when no surrogate experiment is usable it returns an estimand exactly when ID does". -/
+theorem trso_no_surrogate_den_eq_id {topo : MG Name → Except Err (List Name)} (ts : TopoSound topo) (sep : SepTest)
+    (G : MG Name) (hG : G.WF) (hA : G.Acyclic) (hsmall : ∀ v ∈ G.nodes, v < 100) (Y X : List Name)
+    (outcomes interventions : List (Pop × List Name)) (hv : validInput G Y X outcomes interventions = true) (hY : Y ≠ [])
+    (hZ : ∀ p ∈ interventions, p.2 = []) (e e' : Expr)
+    (h : identifyTargetOutcomes sep G Y X outcomes interventions = .ok (some e)) (h' : identify topo G X Y = .ok e')
+    (M : Scm) (hM : M.Compatible G) (σ' σ : Val) :
+    den (M.env G) σ' e σ = den (M.env G) σ' e' σ := by
+  obtain ⟨hYin, _, _, _, hXY, _, _⟩ := validInput_spec hv
+  rw [trso_sound_no_surrogate sep G hG hA hsmall Y X outcomes interventions hv hY hZ e h M hM σ' σ,
+    id_sound ts G X Y ⟨hG, MG.acyclic_ranked hG hA, hYin, hY, hXY⟩ e' h' M hM σ' σ]
+
+/-- non-vacuity: on the napkin graph with a source domain that declares surrogate outcomes but no experiment TRSO
+returns an estimand (the run goes through lines 3, 10 and 9), so the two theorems above apply to a non-trivial run -/
+example : ∃ e, identifyTargetOutcomes dSeparated (MG.fromEdges [] [(0, 1), (1, 2), (2, 3)] [(0, 2), (0, 3)]) [3] [2]
+    [(1001, [1])] [(1001, [])] = .ok (some e) := ⟨_, rfl⟩
 
 /-! ## 4. Semantics: what is proved, and the full statement -/
 
